@@ -4,6 +4,7 @@ import STProofs.QuinticSym
 import STProofs.SepticSym
 import STProofs.QuinticRev
 import STProofs.SepticRev
+import STProofs.CubicRev
 /-!
 # C14 — time shift, translation, amplitude scaling, time scaling (every N, positive durations, all three orders)
 
@@ -17,11 +18,11 @@ import STProofs.SepticRev
 The quintic / septic statements are obtained from the uniqueness theorems of C02 (`build_transform`): a transformation
 that maps Hermite closures to Hermite closures and preserves the optimality conditions maps the spline to the spline.
 
-* time reversal (quintic, septic): `QuinticRev.build_reverse`, `SepticRev.build_reverse` — reversed waypoints and durations,
+* time reversal (all orders): `CubicRev.build_reverse`, `QuinticRev.build_reverse`, `SepticRev.build_reverse` — reversed waypoints and durations,
   odd boundary derivatives negated, start/end swapped ⇒ piece `i` of the new spline is `τ ↦ c_{N-1-i}(h − τ)`;
   `energySeg_rev` (same energy).
 
-NOT proved: time reversal for the cubic (decided on the implementation by the exact reversal check with mirrored gradients).
+(The mirrored *gradients* under reversal are decided on the implementation by the exact reversal check.)
 -/
 open ST
 
